@@ -424,6 +424,22 @@ Section C06_maintenance_refines.
   Proof. exact (answered_ping_is_server_event Store w_put w_get sha1 id_secure cfg s n size m x). Qed.
 End C06_maintenance_refines.
 
+(* a whole ping round of the pass model is a SEQUENCE of such LTS write-backs: applying, in the order of the targets,
+   the table update of each target's ping outcome (replace_node with apply_update UResponse / UFailedPing / nothing:
+   the node-list effect of the two steps above) yields exactly after_pings - on every table whose entries have pairwise
+   distinct (id, address) keys and sit in the bucket of their id, i.e. every table satisfying C05's invariant *)
+From Dht Require Import MaintCompose.
+Section C06_maintenance_composes.
+  Variable id_secure : N -> bytes -> bool.
+  Variable cfg : config.
+
+  Theorem C06_maint_ping_round_is_lts_steps now answers l i :
+    NoDup (map nkey l) -> placed cfg l ->
+    fold_left (write_back cfg now answers) (ping_targets id_secure cfg now l i) l =
+    after_pings id_secure cfg now answers l i.
+  Proof. exact (ping_round_is_lts_steps id_secure cfg now answers l i). Qed.
+End C06_maintenance_composes.
+
 (* non-vacuity: a bucket with a good entry, a questionable one that answers and one that does not: two pings,
    the silent one is marked, the bucket (3 of 8) is refreshed with the two not-bad entries as seeds, the pass ends
    there; the good entry is still there *)
@@ -478,3 +494,4 @@ Print Assumptions C06_maint_nonvacuous.
 Print Assumptions C06_maint_failed_ping_is_server_event.
 Print Assumptions C06_maint_failed_ping_step_flags.
 Print Assumptions C06_maint_answered_ping_is_server_event.
+Print Assumptions C06_maint_ping_round_is_lts_steps.
